@@ -168,12 +168,15 @@ _c("C16",
    "interpolation splines of genetic maps are compared by behaviour (Spec only); implicit HDF5 groups are not tracked (they never become empty in a history of complete writes). "
    "No _partial theorem and no open finding. D8, D29, D30 fixed in /repo (pre-repair counterexamples kept: stale_field_, str_hyperparam_, tp_named_group_prerepair_counterexample).")
 _c("C03",
-   "23 theorems (Props/C03.lean) about a generic label-bundle model (3-level array + taxa/vrnt/trait label bundles + group metadata + class schema): every numpy primitive used commutes with map, so data and each label array move by ONE index list; "
-   "for every history of select/delete/remove/reorder/sort/group/ungroup/adjoin/append/insert/incorp/concat (any index form, any length) every labelled cell of the result is a labelled cell of the initial state or of an operand block; "
-   "after group, a matrix that reports itself grouped has metadata that are a true contiguous partition with strictly increasing names, preserved by EVERY history (grouped_invariant, full); mutating = pure; generic = specific; "
-   "masked genotyping keeps cells attached. 11 classes + 3 genotyping protocols are driven through random histories with full state comparison after every step.",
-   "numpy primitives as modelled (differentially tested each run incl. the scalar-insert rule); copy.deepcopy trusted. Partial: operand_op_attached_partial / history_preserves_entities_partial / unary_op_attached_partial exclude the square (two-axis) bundles "
-   "affected by the known findings D14 (square single-axis insert/incorp/concat gives a non-square matrix) and D27 (square-taxa-trait pure ops drop the other bundle's labels); DenseBreedingValueMatrix is C15's. D3, D4, D17, D28 fixed in /repo.")
+   "58 theorems (Props/C03.lean) about a generic label-bundle model (3-level array, or r nested taxa axes over a trait vector, + taxa/vrnt/trait label bundles + group metadata + class schema): every numpy primitive used commutes with map, so data and each label array move by ONE index list; "
+   "for every history of select/delete/remove/reorder/sort/group/ungroup/adjoin/append/insert/incorp/concat (every index form incl. boolean masks and unsorted numpy.insert positions, any length) every labelled cell of the result is a labelled cell of the initial state or of an operand block; "
+   "growing a square matrix loses no data cell and puts the fill value into the cross blocks only (square_adjoin_keeps_every_data_cell, full); a matrix that reports itself grouped has metadata that are a true contiguous partition, preserved by EVERY history (grouped_invariant, full; square_nd_grouped_invariant for any number of taxa axes); "
+   "mutating = pure; generic = specific (full); histories over several live objects that share label arrays refine the value semantics (shared_arrays_history_refines_values, operation_leaves_other_objects_unchanged); masked / unphased genotyping keep cells attached (full for DensePhasedGenotypeMatrix) and partitions true; "
+   "every Bool oracle of the driver has spec_sound / spec_iff (partition, consistent, lcells, grouped, N-D, fill balance). 22 classes (incl. three-/four-way variance matrices and DenseSquareTraitMatrix) + 3 genotyping protocols are driven through random and directed (alias) histories with full state comparison of ALL live objects after every step.",
+   "numpy primitives as modelled (differentially tested each run incl. the scalar-insert rule, mask / unsorted insert); copy.deepcopy trusted; ndarray identity / shares_memory as the observation of sharing. Partial: operand_op_attached_partial / history_preserves_entities_partial / unary_op_attached_partial / mutating_eq_pure_partial / insert_any_position_form_attached_partial / insert_zero_dim_leading_axis_attached_partial exclude exactly the known findings, each with its counterexample theorem: "
+   "D14 (square-taxa single-axis insert/incorp/concat: non-square result), D14b (the same in DenseSquareTraitMatrix' own code), D17b (0-d ndarray insert position on a non-leading axis is not wrapped), D27 (square-taxa-trait pure ops drop the other bundle's labels). "
+   "Repairs exist as patches/C03_D14.diff, C03_D14b.diff, C03_D17b.diff, C03_D27.diff; the repaired models are proved (square_*_repaired_*, square_taxa_trait_repaired_history_attached) and the patched tree passes the check in repair-validation mode (C03_REPAIRED=1: 4840 cases, corr and Spec hold, no finding consulted). "
+   "DenseBreedingValueMatrix in-place append/incorp/concat are C15's (D23/D24); progeny covariance classes (two square bundles, 4-D/5-D) not exercised. D3, D4, D17, D28 fixed in /repo.")
 _c("C12",
    "57 theorems (Props/C12.lean) over any field of characteristic 0 (ordered field where an order is needed; R for Haldane): the chunked double sums tile [lst,lsp) for every step (exact multiples and one-marker groups as explicit theorems), so every cell is independent of `mem`; the loops of from_algmod as written (zeros, +=, *= 0.25, mirror loop; the genic loops over numpy.empty) compute the closed forms and write every cell; for the two-, three-, four-way and dihybrid schemes, ALL parent tuples (self hybrids included) and EVERY finite selfing depth the cell equals the covariance of doubled-haploid values obtained by exhaustive enumeration of all crossover masks of all meioses (second-moment selfing recursion proved: nself > 0 is a theorem); rprob_filial / cov_D1s / cov_D2s / cov_D1st / cov_D2st closed forms for every k, monotone, geometric limit; nself = inf is the limit with explicit error term; genic matrices = free-recombination enumeration (all four classes, diagonal included); symmetry in exchangeable parents and in the trait pair, zero for identical parents, taxa equivariance, variances >= 0, progeny mean; the cross map lists exactly the (strictly) increasing tuples; every row of the UC matrix for ANY list of configurations = mean + i*sqrt(enumerated variance); with Haldane positions the code's pairwise r composes as required (eq_enum_haldane over R); Spec oracle spec_iff / spec_sound; pair_marginal justifies the pairwise oracle.",
    'Trusted: independence of crossover indicators (C01/C02), numpy.exp, the normal pdf/ppf of the selection intensity, IEEE arithmetic as exact arithmetic to 1e-12 of the natural scale. Spec = equality with enumeration computed three ways (Lean covOf up to 11 mask bits; exact Fraction enumerator; pairwise enumerator for deep selfing / many markers / float positions). No partial theorem. D15, D30-D33 fixed in /repo (pre-repair counterexamples kept). Open finding D37: _calc_uc takes sqrt of a variance that rounding left below zero -> NaN (Float witness uc_sqrt_of_rounded_variance_counterexample; one-line patch proposed). Not covered: the four pcvmat *ProgenyGenicCovarianceMatrix classes (marked UNDER CONSTRUCTION, not constructible).')
